@@ -272,6 +272,18 @@ func runPluginNames() int {
 			must(os.WriteFile(filepath.Join(top, "linktarget", "kept.txt"), []byte("not a plugin"), 0644))
 			must(os.Symlink(filepath.Join(top, "linktarget"), filepath.Join(root, "q")))
 		}
+		// a crowded root (one case in twelve): hundreds of other plugin directories and a few stray files next to the ones of
+		// interest - what holds for a root with three entries holds for one with three hundred
+		if mix(*flagSeed, c.ID, "crowd")%12 == 0 {
+			if _, err := os.Stat(root); err == nil {
+				for i := 0; i < 300+int(mix(*flagSeed, c.ID, "crowdn")%40); i++ {
+					_ = os.Mkdir(filepath.Join(root, fmt.Sprintf("crowd-%03d", i)), 0755)
+					if i%50 == 0 {
+						_ = os.WriteFile(filepath.Join(root, fmt.Sprintf("crowd-stray-%03d.txt", i)), []byte("stray"), 0644)
+					}
+				}
+			}
+		}
 		// the plugin root is given under some spelling of its path (literal, through a symbolic link onto its parent, with dot
 		// elements, relative): containment is about the directory, not about how its path was written
 		rootGiven := spell(root, filepath.Join(caseDir, "root-parent-link"), mix(*flagSeed, c.ID, "spell-root"))
